@@ -44,6 +44,9 @@ type Prog struct {
 	GOARCH   string
 	// RoleNotes: anchors that were not found by name and were resolved by role (roles.go)
 	RoleNotes []string
+	// InlineNotes: anchors analysed together with extracted private helpers (inline.go)
+	InlineNotes []string
+	helpers     map[*Func][]*Func
 }
 
 func short(s string) string { return strings.ReplaceAll(s, modPrefix, "") }
@@ -163,6 +166,7 @@ func Load(lc LoadConfig) (*Prog, error) {
 		return nil, fmt.Errorf("no module packages loaded")
 	}
 	p.resolveRoles()
+	p.computeAliases()
 	return p, nil
 }
 
@@ -250,20 +254,34 @@ func (p *Prog) Parents(f *ast.File) map[ast.Node]ast.Node {
 	if m, ok := p.parents[f]; ok {
 		return m
 	}
+	// one map for all files of the package: a rule that follows an extracted helper into
+	// another file of the package still finds the parents of its nodes
+	files := []*ast.File{f}
+	for _, pkg := range p.Pkgs {
+		for _, pf := range pkg.Syntax {
+			if pf == f {
+				files = pkg.Syntax
+			}
+		}
+	}
 	m := map[ast.Node]ast.Node{}
-	var stack []ast.Node
-	ast.Inspect(f, func(n ast.Node) bool {
-		if n == nil {
-			stack = stack[:len(stack)-1]
+	for _, pf := range files {
+		var stack []ast.Node
+		ast.Inspect(pf, func(n ast.Node) bool {
+			if n == nil {
+				stack = stack[:len(stack)-1]
+				return true
+			}
+			if len(stack) > 0 {
+				m[n] = stack[len(stack)-1]
+			}
+			stack = append(stack, n)
 			return true
-		}
-		if len(stack) > 0 {
-			m[n] = stack[len(stack)-1]
-		}
-		stack = append(stack, n)
-		return true
-	})
-	p.parents[f] = m
+		})
+	}
+	for _, pf := range files {
+		p.parents[pf] = m
+	}
 	return m
 }
 
